@@ -1,3 +1,4 @@
 import PtaSpec.Hier
 import PtaSpec.RuleSem
 import PtaSpec.BuilderSpec
+import PtaSpec.LayerSem
